@@ -285,356 +285,361 @@ def run(ctx):
         ctx.fn(u.qualname(f))
 
     # ---- R1
-    R = 'C04-R1'
-    from peval import PEval, Str, Undecided, Fault
-    PE = PEval([u])
-    ctx.require(len(params_of(esc)) == 2 and 'string' in (dtype(params_of(esc)[0]) or ''), 'escape_string(const std::string&, mode) signature changed')
+    with ctx.section('C04-R1', 'C04'):
+        R = 'C04-R1'
+        from peval import PEval, Str, Undecided, Fault
+        PE = PEval([u])
+        ctx.require(len(params_of(esc)) == 2 and 'string' in (dtype(params_of(esc)[0]) or ''), 'escape_string(const std::string&, mode) signature changed')
 
-    def emitted_for(b, mode):
-        """text escape_string produces for the one-byte string [b] under mode: the whole function is
-        partially evaluated on that constant input (helpers, switch, loops folded), nothing is run"""
-        try:
-            r = PE.call_with(esc, [Str(bytes([b])), mode])
-            r2 = PE.call_with(esc, [Str(bytes([0x41, b])), mode])
-        except Undecided as e:
-            raise AnalysisBroken('escape_string: cannot fold the function on the constant byte 0x%02X (%s)' % (b, e))
-        except Fault as e:
-            return None, 'for byte 0x%02X escape_string %s' % (b, e)
-        if not isinstance(r, Str) or not isinstance(r2, Str):
-            raise AnalysisBroken('escape_string does not evaluate to a string for byte 0x%02X' % b)
-        if bytes(r2.b) != b'A' + bytes(r.b):
-            return None, 'the text for byte 0x%02X depends on its position in the string (%r alone, %r after "A")' % (b, bytes(r.b), bytes(r2.b))
-        return bytes(r.b), 'folded'
-    moded = params_of(esc)[1]
-    mode_enum = {}
-    for r_ in u.roots:
-        for e in walk(r_):
-            if e.get('kind') == 'EnumDecl' and e.get('name') == 'StringEscapeMode':
-                for c in kids(e):
-                    if c.get('kind') == 'EnumConstantDecl':
-                        mode_enum[c['name']] = enums[c['id']]
-    ctx.require(set(mode_enum) == {'STANDARD', 'HEX', 'CONTROL_ONLY'}, 'StringEscapeMode enumerators changed: %s' % sorted(mode_enum))
-    table, raw_ok, term = parser_tables(I, u, P)
-    ctx.require(term == 34, 'string terminator is not the double quote')
-    for mname, mval in sorted(mode_enum.items()):
-        bad = []
-        for b in range(256):
-            em, how = emitted_for(b, mval)
-            key = '%s|0x%02X' % (mname, b)
-            if em is None:
-                ctx.bad(R, key, esc, how)
-                continue
-            got, why = decode(em, table, raw_ok, term)
-            if got == b:
-                ctx.ok(R, key, esc, '%r -> 0x%02X' % (em.decode('latin1'), b), nontrivial=(len(em) > 1 or b in (0x20, 0x7E, 0x7F, 0x80, 0xFF)))
-            else:
-                ctx.bad(R, key, esc, 'mode %s: byte 0x%02X is serialized as %r, which the parser %s' % (mname, b, em.decode('latin1'), ('decodes to 0x%02X' % got) if got is not None else ('rejects/misreads: ' + why)))
-        # STANDARD mode emits only standard JSON escapes (no \x)
-        if mname == 'STANDARD':
-            nonstd = [b for b in range(256) if (emitted_for(b, mval)[0] or b'')[:2] == b'\\x']
-            ctx.check(not nonstd, 'C04-R3', 'STANDARD|no-hex-escapes', esc, 'standard mode never emits \\x', 'standard mode emits the non-standard \\x escape for bytes %s' % [hex(b) for b in nonstd[:4]])
+        def emitted_for(b, mode):
+            """text escape_string produces for the one-byte string [b] under mode: the whole function is
+            partially evaluated on that constant input (helpers, switch, loops folded), nothing is run"""
+            try:
+                r = PE.call_with(esc, [Str(bytes([b])), mode])
+                r2 = PE.call_with(esc, [Str(bytes([0x41, b])), mode])
+            except Undecided as e:
+                raise AnalysisBroken('escape_string: cannot fold the function on the constant byte 0x%02X (%s)' % (b, e))
+            except Fault as e:
+                return None, 'for byte 0x%02X escape_string %s' % (b, e)
+            if not isinstance(r, Str) or not isinstance(r2, Str):
+                raise AnalysisBroken('escape_string does not evaluate to a string for byte 0x%02X' % b)
+            if bytes(r2.b) != b'A' + bytes(r.b):
+                return None, 'the text for byte 0x%02X depends on its position in the string (%r alone, %r after "A")' % (b, bytes(r.b), bytes(r2.b))
+            return bytes(r.b), 'folded'
+        moded = params_of(esc)[1]
+        mode_enum = {}
+        for r_ in u.roots:
+            for e in walk(r_):
+                if e.get('kind') == 'EnumDecl' and e.get('name') == 'StringEscapeMode':
+                    for c in kids(e):
+                        if c.get('kind') == 'EnumConstantDecl':
+                            mode_enum[c['name']] = enums[c['id']]
+        ctx.require(set(mode_enum) == {'STANDARD', 'HEX', 'CONTROL_ONLY'}, 'StringEscapeMode enumerators changed: %s' % sorted(mode_enum))
+        table, raw_ok, term = parser_tables(I, u, P)
+        ctx.require(term == 34, 'string terminator is not the double quote')
+        for mname, mval in sorted(mode_enum.items()):
+            bad = []
+            for b in range(256):
+                em, how = emitted_for(b, mval)
+                key = '%s|0x%02X' % (mname, b)
+                if em is None:
+                    ctx.bad(R, key, esc, how)
+                    continue
+                got, why = decode(em, table, raw_ok, term)
+                if got == b:
+                    ctx.ok(R, key, esc, '%r -> 0x%02X' % (em.decode('latin1'), b), nontrivial=(len(em) > 1 or b in (0x20, 0x7E, 0x7F, 0x80, 0xFF)))
+                else:
+                    ctx.bad(R, key, esc, 'mode %s: byte 0x%02X is serialized as %r, which the parser %s' % (mname, b, em.decode('latin1'), ('decodes to 0x%02X' % got) if got is not None else ('rejects/misreads: ' + why)))
+            # STANDARD mode emits only standard JSON escapes (no \x)
+            if mname == 'STANDARD':
+                nonstd = [b for b in range(256) if (emitted_for(b, mval)[0] or b'')[:2] == b'\\x']
+                ctx.check(not nonstd, 'C04-R3', 'STANDARD|no-hex-escapes', esc, 'standard mode never emits \\x', 'standard mode emits the non-standard \\x escape for bytes %s' % [hex(b) for b in nonstd[:4]])
 
     # ---- R2 number syntax
-    R = 'C04-R2'
-    sbody = body_of(ser)
-    sw = [x for x in walk(sbody) if x.get('kind') == 'SwitchStmt']
-    ctx.require(len(sw) >= 1, 'serialize: switch over the variant index not found')
-    cases = {}
-    for c in walk(sw[0]):
-        if c.get('kind') == 'CaseStmt' and enclosing(c, ('SwitchStmt',)) is sw[0]:
-            cases[int_value(kids(c)[0])] = c
-    fl = cases.get(3)
-    ctx.require(fl is not None, 'serialize: case for the float alternative (index 3) not found')
-    appends = []
-    for x in walk_deep(fl, u):
-        if x.get('kind') == 'IfStmt':
-            cond, then, els = if_parts(x)
-            S = set()
-            okc = True
-            for n_, pol in atoms([Fact(cond, True, x)]):
-                r = relation(n_, pol)
-                if not r or r[1] != '==':
-                    okc = False
-                    continue
-                call = strip(r[0])
-                if call.get('kind') == 'CXXMemberCallExpr' and call_name(call) in ('find', 'find_first_of'):
-                    a0 = call_args(call)[0]
-                    lit = string_lit(a0)
-                    if lit is not None:
-                        S |= set(lit)
-                    elif int_value(a0) is not None:
-                        S.add(int_value(a0))
+    with ctx.section('C04-R2', 'C04'):
+        R = 'C04-R2'
+        sbody = body_of(ser)
+        sw = [x for x in walk(sbody) if x.get('kind') == 'SwitchStmt']
+        ctx.require(len(sw) >= 1, 'serialize: switch over the variant index not found')
+        cases = {}
+        for c in walk(sw[0]):
+            if c.get('kind') == 'CaseStmt' and enclosing(c, ('SwitchStmt',)) is sw[0]:
+                cases[int_value(kids(c)[0])] = c
+        fl = cases.get(3)
+        ctx.require(fl is not None, 'serialize: case for the float alternative (index 3) not found')
+        appends = []
+        for x in walk_deep(fl, u):
+            if x.get('kind') == 'IfStmt':
+                cond, then, els = if_parts(x)
+                S = set()
+                okc = True
+                for n_, pol in atoms([Fact(cond, True, x)]):
+                    r = relation(n_, pol)
+                    if not r or r[1] != '==':
+                        okc = False
+                        continue
+                    call = strip(r[0])
+                    if call.get('kind') == 'CXXMemberCallExpr' and call_name(call) in ('find', 'find_first_of'):
+                        a0 = call_args(call)[0]
+                        lit = string_lit(a0)
+                        if lit is not None:
+                            S |= set(lit)
+                        elif int_value(a0) is not None:
+                            S.add(int_value(a0))
+                        else:
+                            okc = False
                     else:
                         okc = False
-                else:
-                    okc = False
-            lits = [string_lit(y) for y in walk(then) if string_lit(y) is not None]
-            if lits:
-                appends.append((x, S, okc, lits))
-    ctx.require(len(appends) == 1, 'serialize: the float-marker suffix rule (`if (no marker) return ret + ".0"`) not found')
-    x, S, okc, lits = appends[0]
-    need = {ord('.'), ord('e')}
-    allowed = {ord('.'), ord('e'), ord('E')}
-    ctx.check(okc and need <= S <= allowed, R, 'float-marker-set', x, 'suffix appended iff none of %s occur' % sorted(chr(c) for c in S),
-              'the suffix rule looks for %s; it must look for exactly the float markers %%g can emit (\'.\' and \'e\'): otherwise %s' % (
-                  sorted(chr(c) for c in S), 'text such as 1e+20 gets ".0" appended after the exponent and no longer parses' if ord('e') not in S else ('1.5 gets a second ".0"' if ord('.') not in S else 'integers-looking floats lose their marker and come back as ints')))
-    ctx.check(set(lits) == {b'.0'}, R, 'float-marker-suffix', x, 'suffix is ".0"', 'suffix is %s' % lits)
-    fmts = [string_lit(a) for c in walk_deep(fl, u) if c.get('kind') == 'CallExpr' and call_name(c) == 'string_printf' for a in call_args(c)[:1]]
-    ctx.check(fmts == [b'%g'], R, 'float-format', fl, 'floats are printed with %g', 'float format is %s' % fmts)
-    ic = cases.get(2)
-    ctx.require(ic is not None, 'serialize: case for the int alternative not found')
-    ifmts = sorted(f_ for f_ in (string_lit(a) for c in walk_deep(ic, u) if c.get('kind') == 'CallExpr' and call_name(c) == 'string_printf' for a in call_args(c)[:1]) if f_)
-    ctx.check(ifmts == [b'-0x%lX', b'0x%lX'], R, 'hex-format', ic, 'hex integers are 0x / -0x + uppercase digits', 'hex integer formats are %s' % ifmts)
-    pbody = body_of(P)
-    hexgate = [c for c in walk(pbody) if c.get('kind') == 'CXXMemberCallExpr' and call_name(c) == 'go']
-    ctx.require(len(hexgate) == 1, 'parser: hex gate not found')
-    chars = set()
-    for n_, pol in atoms(path_facts(hexgate[0], ignore_kills_of={params_of(P)[0]['id']})):
-        r = relation(n_, pol)
-        if r and r[1] == '==' and int_value(r[2]) is not None and strip(r[0]).get('kind') == 'CXXMemberCallExpr':
-            chars.add(int_value(r[2]))
-    ctx.check(chars == {ord('0'), ord('x')}, R, 'hex-gate', hexgate[0], 'parser recognises the prefix 0x', 'parser hex gate tests %s' % sorted(chr(c) for c in chars))
-    # digit loops never reject a numeral by magnitude
-    num_loops = []
-    for lp in walk(pbody):
-        if lp.get('kind') == 'WhileStmt':
-            cond, lb = while_parts(lp)
-            if any(c.get('kind') == 'CallExpr' and call_name(c) in ('isdigit', 'isxdigit') for c in walk(cond)):
-                num_loops.append(lp)
-    ctx.require(len(num_loops) >= 4, 'number-scanner digit loops not found')
-    thr = [t for lp in num_loops for t in walk(lp) if t.get('kind') == 'CXXThrowExpr']
-    ctx.check(not thr, R, 'digit-loops-total', thr[0] if thr else num_loops[0], 'digit accumulation never throws', 'a digit loop rejects some numerals (%s): text the serializer emits for an extreme value is refused' % (src_text(thr[0], 80) if thr else ''))
+                lits = [string_lit(y) for y in walk(then) if string_lit(y) is not None]
+                if lits:
+                    appends.append((x, S, okc, lits))
+        ctx.require(len(appends) == 1, 'serialize: the float-marker suffix rule (`if (no marker) return ret + ".0"`) not found')
+        x, S, okc, lits = appends[0]
+        need = {ord('.'), ord('e')}
+        allowed = {ord('.'), ord('e'), ord('E')}
+        ctx.check(okc and need <= S <= allowed, R, 'float-marker-set', x, 'suffix appended iff none of %s occur' % sorted(chr(c) for c in S),
+                  'the suffix rule looks for %s; it must look for exactly the float markers %%g can emit (\'.\' and \'e\'): otherwise %s' % (
+                      sorted(chr(c) for c in S), 'text such as 1e+20 gets ".0" appended after the exponent and no longer parses' if ord('e') not in S else ('1.5 gets a second ".0"' if ord('.') not in S else 'integers-looking floats lose their marker and come back as ints')))
+        ctx.check(set(lits) == {b'.0'}, R, 'float-marker-suffix', x, 'suffix is ".0"', 'suffix is %s' % lits)
+        fmts = [string_lit(a) for c in walk_deep(fl, u) if c.get('kind') == 'CallExpr' and call_name(c) == 'string_printf' for a in call_args(c)[:1]]
+        ctx.check(fmts == [b'%g'], R, 'float-format', fl, 'floats are printed with %g', 'float format is %s' % fmts)
+        ic = cases.get(2)
+        ctx.require(ic is not None, 'serialize: case for the int alternative not found')
+        ifmts = sorted(f_ for f_ in (string_lit(a) for c in walk_deep(ic, u) if c.get('kind') == 'CallExpr' and call_name(c) == 'string_printf' for a in call_args(c)[:1]) if f_)
+        ctx.check(ifmts == [b'-0x%lX', b'0x%lX'], R, 'hex-format', ic, 'hex integers are 0x / -0x + uppercase digits', 'hex integer formats are %s' % ifmts)
+        pbody = body_of(P)
+        hexgate = [c for c in walk(pbody) if c.get('kind') == 'CXXMemberCallExpr' and call_name(c) == 'go']
+        ctx.require(len(hexgate) == 1, 'parser: hex gate not found')
+        chars = set()
+        for n_, pol in atoms(path_facts(hexgate[0], ignore_kills_of={params_of(P)[0]['id']})):
+            r = relation(n_, pol)
+            if r and r[1] == '==' and int_value(r[2]) is not None and strip(r[0]).get('kind') == 'CXXMemberCallExpr':
+                chars.add(int_value(r[2]))
+        ctx.check(chars == {ord('0'), ord('x')}, R, 'hex-gate', hexgate[0], 'parser recognises the prefix 0x', 'parser hex gate tests %s' % sorted(chr(c) for c in chars))
+        # digit loops never reject a numeral by magnitude
+        num_loops = []
+        for lp in walk(pbody):
+            if lp.get('kind') == 'WhileStmt':
+                cond, lb = while_parts(lp)
+                if any(c.get('kind') == 'CallExpr' and call_name(c) in ('isdigit', 'isxdigit') for c in walk(cond)):
+                    num_loops.append(lp)
+        ctx.require(len(num_loops) >= 4, 'number-scanner digit loops not found')
+        thr = [t for lp in num_loops for t in walk(lp) if t.get('kind') == 'CXXThrowExpr']
+        ctx.check(not thr, R, 'digit-loops-total', thr[0] if thr else num_loops[0], 'digit accumulation never throws', 'a digit loop rejects some numerals (%s): text the serializer emits for an extreme value is refused' % (src_text(thr[0], 80) if thr else ''))
 
-    # exponent scaling: a loop whose trip count is a parsed value (its condition does not consult the
-    # reader) runs up to 308 times for text %g emits; whatever it accumulates into the float result
-    # must be floating point (10^19 already overflows a 64-bit integer)
-    rp = params_of(P)[0]
-    fvars = {x['id']: x for x in walk(pbody) if x.get('kind') == 'VarDecl' and (dtype(x) or '') in ('double', 'float', 'long double')}
-    # the float result: floating locals handed to a JSON constructor / assigned to the result
-    fres = set()
-    for x in walk(pbody):
-        if x.get('kind') in ('CXXConstructExpr', 'CXXFunctionalCastExpr', 'CXXTemporaryObjectExpr', 'BinaryOperator', 'CXXOperatorCallExpr') and 'JSON' in (qtype(x) or ''):
-            for y in walk(x):
-                rd = ref_decl(y) if y.get('kind') == 'DeclRefExpr' else None
-                if rd and rd.get('id') in fvars:
-                    fres.add(rd['id'])
-    ctx.require(fres, 'parser: the floating-point local that becomes the float result was not found')
-    def _assigns(root):
-        for a in walk(root):
-            k_ = a.get('kind')
-            if k_ in ('BinaryOperator', 'CompoundAssignOperator') and a.get('opcode') in ASSIGN_OPS:
-                rd = ref_decl(a['inner'][0])
-                if rd and rd.get('kind') == 'VarDecl':
-                    yield a, rd, a['inner'][1]
-            elif k_ == 'UnaryOperator' and a.get('opcode') in ('++', '--'):
-                rd = ref_decl(a['inner'][0])
-                if rd and rd.get('kind') == 'VarDecl':
-                    yield a, rd, None
-    value_loops = []
-    for lp in walk(pbody):
-        if lp.get('kind') in ('ForStmt', 'WhileStmt', 'DoStmt'):
-            cond = for_parts(lp)[2] if lp.get('kind') == 'ForStmt' else (while_parts(lp)[0] if lp.get('kind') == 'WhileStmt' else None)
-            if cond is None:
-                continue
-            if any((ref_decl(y) or {}).get('id') == rp['id'] for y in walk(cond) if y.get('kind') == 'DeclRefExpr'):
-                continue
-            cvars = {(ref_decl(y) or {}).get('id') for y in walk(cond) if y.get('kind') == 'DeclRefExpr'}
-            if not any(v_ is not None for v_ in cvars):
-                continue
-            value_loops.append((lp, cvars))
-    n_sc = 0
-    for lp, cvars in value_loops:
-        for a, rd, rhs in _assigns(lp):
-            if rd['id'] in cvars or rd['id'] in fvars:
-                if rd['id'] in fvars:
-                    n_sc += 1
-                    ctx.ok(R, 'exp-scale|%s@%s' % (rd.get('name'), a.get('_line')), a, 'value-counted loop accumulates into the floating-point %s' % rd.get('name'))
-                continue
-            # integer accumulator: does it reach the float result afterwards?
-            reach = {rd['id']}
-            hit = None
-            for _ in range(4):
-                for a2, rd2, rhs2 in _assigns(pbody):
-                    if rhs2 is None or a2.get('_off', 0) < lp.get('_end', lp.get('_off', 0)):
-                        continue
-                    if any((ref_decl(y) or {}).get('id') in reach for y in walk(rhs2) if y.get('kind') == 'DeclRefExpr'):
-                        if rd2['id'] in fres and hit is None:
-                            hit = a2
-                        reach.add(rd2['id'])
-            if hit is not None:
-                ctx.bad(R, 'exp-scale|%s@%s' % (rd.get('name'), a.get('_line')), a,
-                        'the loop counted by a parsed value accumulates into the fixed-width integer `%s` (%s), which then scales the float result at line %s (`%s`): it overflows from 10^19 on, so text %%g emits for large or small magnitudes (1e+20, 1e-30) parses to a wrong value' % (rd.get('name'), dtype(rd), hit.get('_line'), src_text(hit, 50)))
-    if not n_sc and not any(o.rule == R and o.key.startswith('exp-scale') for o in ctx.obs):
-        ctx.undecided(R, 'exp-scale', P, 'no value-counted scaling loop recognised in the number scanner')
+        # exponent scaling: a loop whose trip count is a parsed value (its condition does not consult the
+        # reader) runs up to 308 times for text %g emits; whatever it accumulates into the float result
+        # must be floating point (10^19 already overflows a 64-bit integer)
+        rp = params_of(P)[0]
+        fvars = {x['id']: x for x in walk(pbody) if x.get('kind') == 'VarDecl' and (dtype(x) or '') in ('double', 'float', 'long double')}
+        # the float result: floating locals handed to a JSON constructor / assigned to the result
+        fres = set()
+        for x in walk(pbody):
+            if x.get('kind') in ('CXXConstructExpr', 'CXXFunctionalCastExpr', 'CXXTemporaryObjectExpr', 'BinaryOperator', 'CXXOperatorCallExpr') and 'JSON' in (qtype(x) or ''):
+                for y in walk(x):
+                    rd = ref_decl(y) if y.get('kind') == 'DeclRefExpr' else None
+                    if rd and rd.get('id') in fvars:
+                        fres.add(rd['id'])
+        ctx.require(fres, 'parser: the floating-point local that becomes the float result was not found')
+        def _assigns(root):
+            for a in walk(root):
+                k_ = a.get('kind')
+                if k_ in ('BinaryOperator', 'CompoundAssignOperator') and a.get('opcode') in ASSIGN_OPS:
+                    rd = ref_decl(a['inner'][0])
+                    if rd and rd.get('kind') == 'VarDecl':
+                        yield a, rd, a['inner'][1]
+                elif k_ == 'UnaryOperator' and a.get('opcode') in ('++', '--'):
+                    rd = ref_decl(a['inner'][0])
+                    if rd and rd.get('kind') == 'VarDecl':
+                        yield a, rd, None
+        value_loops = []
+        for lp in walk(pbody):
+            if lp.get('kind') in ('ForStmt', 'WhileStmt', 'DoStmt'):
+                cond = for_parts(lp)[2] if lp.get('kind') == 'ForStmt' else (while_parts(lp)[0] if lp.get('kind') == 'WhileStmt' else None)
+                if cond is None:
+                    continue
+                if any((ref_decl(y) or {}).get('id') == rp['id'] for y in walk(cond) if y.get('kind') == 'DeclRefExpr'):
+                    continue
+                cvars = {(ref_decl(y) or {}).get('id') for y in walk(cond) if y.get('kind') == 'DeclRefExpr'}
+                if not any(v_ is not None for v_ in cvars):
+                    continue
+                value_loops.append((lp, cvars))
+        n_sc = 0
+        for lp, cvars in value_loops:
+            for a, rd, rhs in _assigns(lp):
+                if rd['id'] in cvars or rd['id'] in fvars:
+                    if rd['id'] in fvars:
+                        n_sc += 1
+                        ctx.ok(R, 'exp-scale|%s@%s' % (rd.get('name'), a.get('_line')), a, 'value-counted loop accumulates into the floating-point %s' % rd.get('name'))
+                    continue
+                # integer accumulator: does it reach the float result afterwards?
+                reach = {rd['id']}
+                hit = None
+                for _ in range(4):
+                    for a2, rd2, rhs2 in _assigns(pbody):
+                        if rhs2 is None or a2.get('_off', 0) < lp.get('_end', lp.get('_off', 0)):
+                            continue
+                        if any((ref_decl(y) or {}).get('id') in reach for y in walk(rhs2) if y.get('kind') == 'DeclRefExpr'):
+                            if rd2['id'] in fres and hit is None:
+                                hit = a2
+                            reach.add(rd2['id'])
+                if hit is not None:
+                    ctx.bad(R, 'exp-scale|%s@%s' % (rd.get('name'), a.get('_line')), a,
+                            'the loop counted by a parsed value accumulates into the fixed-width integer `%s` (%s), which then scales the float result at line %s (`%s`): it overflows from 10^19 on, so text %%g emits for large or small magnitudes (1e+20, 1e-30) parses to a wrong value' % (rd.get('name'), dtype(rd), hit.get('_line'), src_text(hit, 50)))
+        if not n_sc and not any(o.rule == R and o.key.startswith('exp-scale') for o in ctx.obs):
+            ctx.undecided(R, 'exp-scale', P, 'no value-counted scaling loop recognised in the number scanner')
 
     # ---- R3 option mapping and trivial constants
-    R = 'C04-R3'
-    opt = {}
-    for r_ in u.roots:
-        for e in walk(r_):
-            if e.get('kind') == 'EnumDecl' and e.get('name') == 'SerializeOption':
-                for c in kids(e):
-                    if c.get('kind') == 'EnumConstantDecl':
-                        opt[c['name']] = enums[c['id']]
-    ctx.require('ESCAPE_CONTROLS_ONLY' in opt and 'HEX_ESCAPE_CODES' in opt, 'SerializeOption enumerators not found')
-    optp = params_of(ser)[0]
-    mode_var = next((x for x in walk(sbody) if x.get('kind') == 'VarDecl' and 'StringEscapeMode' in (qtype(x) or '')), None)
-    ctx.require(mode_var is not None, 'serialize: escape_mode variable not found')
-    chain = next((s for s in stmts_of(sbody) if s.get('kind') == 'IfStmt' and any((ref_decl(a['inner'][0]) or {}).get('id') == mode_var['id'] for a in walk(s) if a.get('kind') == 'BinaryOperator' and a.get('opcode') == '=')), None)
-    ctx.require(chain is not None, 'serialize: option -> mode chain not found')
-    want = {(0, 0): 'STANDARD', (0, 1): 'HEX', (1, 0): 'CONTROL_ONLY', (1, 1): 'CONTROL_ONLY'}
-    for (co, hx), wm in sorted(want.items()):
-        ov = (opt['ESCAPE_CONTROLS_ONLY'] if co else 0) | (opt['HEX_ESCAPE_CODES'] if hx else 0)
-        act = select_action(I, chain, {optp['id']: const_bv(ov, 32, False)})
-        got = None
-        if not isinstance(act, tuple):
-            a = strip(act)
-            if a.get('kind') == 'BinaryOperator' and a.get('opcode') == '=':
-                rd = ref_decl(a['inner'][1])
-                got = rd.get('name') if rd else None
-        ctx.check(got == wm, R, 'mode|controls_only=%d,hex=%d' % (co, hx), chain, 'escape mode %s' % got, 'options (ESCAPE_CONTROLS_ONLY=%d, HEX_ESCAPE_CODES=%d) select mode %s, documented priority gives %s' % (co, hx, got, wm))
-    ser_lits = set()
-    for k in (0, 1):
-        c = cases.get(k)
-        if c is not None:
-            for y in walk(c):
-                l = string_lit(y)
-                if l is not None:
-                    ser_lits.add(l)
-    par_lits = set()
-    for c in walk(pbody):
-        if c.get('kind') == 'CXXMemberCallExpr' and call_name(c) == 'skip_if':
-            l = string_lit(call_args(c)[0])
-            if l is not None and int_value(call_args(c)[1]) == len(l):
-                par_lits.add(l)
-    ctx.check(ser_lits == {b'n', b'null', b't', b'f', b'true', b'false'}, R, 'trivial-constants|serializer', cases.get(0) or ser, 'serializer emits null/true/false and n/t/f', 'serializer trivial constants are %s' % sorted(ser_lits))
-    ctx.check(ser_lits <= par_lits, R, 'trivial-constants|parser-accepts', P, 'parser accepts every constant the serializer emits', 'parser does not accept %s' % sorted(ser_lits - par_lits))
+    with ctx.section('C04-R3', 'C04'):
+        R = 'C04-R3'
+        opt = {}
+        for r_ in u.roots:
+            for e in walk(r_):
+                if e.get('kind') == 'EnumDecl' and e.get('name') == 'SerializeOption':
+                    for c in kids(e):
+                        if c.get('kind') == 'EnumConstantDecl':
+                            opt[c['name']] = enums[c['id']]
+        ctx.require('ESCAPE_CONTROLS_ONLY' in opt and 'HEX_ESCAPE_CODES' in opt, 'SerializeOption enumerators not found')
+        optp = params_of(ser)[0]
+        mode_var = next((x for x in walk(sbody) if x.get('kind') == 'VarDecl' and 'StringEscapeMode' in (qtype(x) or '')), None)
+        ctx.require(mode_var is not None, 'serialize: escape_mode variable not found')
+        chain = next((s for s in stmts_of(sbody) if s.get('kind') == 'IfStmt' and any((ref_decl(a['inner'][0]) or {}).get('id') == mode_var['id'] for a in walk(s) if a.get('kind') == 'BinaryOperator' and a.get('opcode') == '=')), None)
+        ctx.require(chain is not None, 'serialize: option -> mode chain not found')
+        want = {(0, 0): 'STANDARD', (0, 1): 'HEX', (1, 0): 'CONTROL_ONLY', (1, 1): 'CONTROL_ONLY'}
+        for (co, hx), wm in sorted(want.items()):
+            ov = (opt['ESCAPE_CONTROLS_ONLY'] if co else 0) | (opt['HEX_ESCAPE_CODES'] if hx else 0)
+            act = select_action(I, chain, {optp['id']: const_bv(ov, 32, False)})
+            got = None
+            if not isinstance(act, tuple):
+                a = strip(act)
+                if a.get('kind') == 'BinaryOperator' and a.get('opcode') == '=':
+                    rd = ref_decl(a['inner'][1])
+                    got = rd.get('name') if rd else None
+            ctx.check(got == wm, R, 'mode|controls_only=%d,hex=%d' % (co, hx), chain, 'escape mode %s' % got, 'options (ESCAPE_CONTROLS_ONLY=%d, HEX_ESCAPE_CODES=%d) select mode %s, documented priority gives %s' % (co, hx, got, wm))
+        ser_lits = set()
+        for k in (0, 1):
+            c = cases.get(k)
+            if c is not None:
+                for y in walk(c):
+                    l = string_lit(y)
+                    if l is not None:
+                        ser_lits.add(l)
+        par_lits = set()
+        for c in walk(pbody):
+            if c.get('kind') == 'CXXMemberCallExpr' and call_name(c) == 'skip_if':
+                l = string_lit(call_args(c)[0])
+                if l is not None and int_value(call_args(c)[1]) == len(l):
+                    par_lits.add(l)
+        ctx.check(ser_lits == {b'n', b'null', b't', b'f', b'true', b'false'}, R, 'trivial-constants|serializer', cases.get(0) or ser, 'serializer emits null/true/false and n/t/f', 'serializer trivial constants are %s' % sorted(ser_lits))
+        ctx.check(ser_lits <= par_lits, R, 'trivial-constants|parser-accepts', P, 'parser accepts every constant the serializer emits', 'parser does not accept %s' % sorted(ser_lits - par_lits))
 
     # ---- R4 exhaustiveness
-    R = 'C04-R4'
-    vfield = None
-    for r_ in u.records:
-        if u.qualname(r_) == 'phosg::JSON':
-            for c in kids(r_):
-                if c.get('kind') == 'FieldDecl' and c.get('name') == 'value':
-                    vfield = c
-    ctx.require(vfield is not None, 'JSON::value field not found')
-    vt = vfield['type'].get('desugaredQualType') or vfield['type'].get('qualType')
-    alts = split_targs(vt)
-    ctx.check(len(alts) == 7, R, 'variant|7-alternatives', vfield, '%d alternatives' % len(alts), 'the variant has %d alternatives; serialize/copy/compare are written for 7' % len(alts))
-    want_acc = {1: 'as_bool', 2: 'as_int', 3: 'as_float', 4: 'as_string', 5: 'as_list', 6: 'as_dict'}
-    for k in range(7):
-        c = cases.get(k)
-        ctx.check(c is not None, R, 'serialize|case-%d' % k, sw[0], 'case %d present' % k, 'serialize has no case for variant index %d (%s)' % (k, ALT_NAMES[k]))
-        if c is not None and k in want_acc:
-            nxt = cases.get(k + 1)
-            accs = {call_name(y) for y in walk(c) if y.get('kind') == 'CXXMemberCallExpr' and (call_name(y) or '').startswith('as_') and is_this(member_call_object(y))
-                    and (nxt is None or not any(a is nxt for a in ancestors(y)))}
-            ctx.check(accs == {want_acc[k]}, R, 'serialize|case-%d-accessor' % k, c, 'case %d renders %s()' % (k, want_acc[k]), 'case %d (%s) renders through %s' % (k, ALT_NAMES[k], sorted(accs)))
-    asg = [f for f in u.func('phosg::JSON::operator=') if 'const phosg::JSON &' in (qtype(params_of(f)[0]) or '') or 'const JSON &' in (qtype(params_of(f)[0]) or '')]
-    ctx.require(len(asg) == 1, 'JSON::operator=(const JSON&) not found')
-    A = asg[0]
-    ctx.fn('phosg::JSON::operator=(const JSON&)')
-    asw = [x for x in walk(body_of(A)) if x.get('kind') == 'SwitchStmt']
-    ctx.require(len(asw) == 1, 'operator=: switch not found')
-    acases = {}
-    for c in walk(asw[0]):
-        if c.get('kind') == 'CaseStmt':
-            acases[int_value(kids(c)[0])] = c
-    order = sorted(acases)
-    for k in range(7):
-        c = acases.get(k)
-        ctx.check(c is not None, R, 'operator=|case-%d' % k, asw[0], 'case %d present' % k, 'copy assignment has no case for variant index %d (%s)' % (k, ALT_NAMES[k]))
-        if c is None:
-            continue
-        nxt = acases.get(k + 1)
-        gets = []
-        for y in walk(c):
-            if y.get('kind') == 'CallExpr' and call_name(y) == 'get' and (nxt is None or not any(a is nxt for a in ancestors(y))):
-                gets.append(y)
-        # get<k>: the result type must be alternative k
-        badg = [y for y in gets if norm_alt(dtype(y)) != norm_alt(alts[k] if k < len(alts) else '')]
-        ctx.check(not badg, R, 'operator=|case-%d-index' % k, c, 'case %d reads/writes alternative %d only' % (k, k), 'case %d accesses a different alternative: %s has type %s' % (k, src_text(badg[0], 50) if badg else '', dtype(badg[0]) if badg else ''))
-    cmp_ = [f for f in u.func('phosg::JSON::operator<=>') if 'JSON &' in (qtype(params_of(f)[0]) or '')]
-    if cmp_:
-        csw = [x for x in walk(body_of(cmp_[0])) if x.get('kind') == 'SwitchStmt']
-        labels = {int_value(kids(c)[0]) for x in csw for c in walk(x) if c.get('kind') == 'CaseStmt'}
-        ctx.check(labels == set(range(7)), R, 'operator<=>|cases', cmp_[0], 'cases 0..6', 'comparison handles indices %s' % sorted(labels))
-    # as_X returns the alternative named X
-    idx = {n: i for i, n in enumerate(ALT_NAMES)}
-    for nm in ('as_bool', 'as_string', 'as_list', 'as_dict'):
-        for f in u.func('phosg::JSON::' + nm):
-            gets = [y for y in walk(body_of(f)) if y.get('kind') == 'CallExpr' and call_name(y) == 'get']
-            k = idx[nm[3:]]
-            ok = len(gets) >= 1 and all(norm_alt(dtype(y)) == norm_alt(alts[k]) for y in gets)
-            const = ' const' if (f.get('type', {}).get('qualType') or '').rstrip().endswith('const') else ''
-            ctx.check(ok, R, '%s%s|alternative' % (nm, const), f, '%s returns alternative %d' % (nm, k), '%s does not return the %s alternative' % (nm, ALT_NAMES[k]))
+    with ctx.section('C04-R4', 'C04'):
+        R = 'C04-R4'
+        vfield = None
+        for r_ in u.records:
+            if u.qualname(r_) == 'phosg::JSON':
+                for c in kids(r_):
+                    if c.get('kind') == 'FieldDecl' and c.get('name') == 'value':
+                        vfield = c
+        ctx.require(vfield is not None, 'JSON::value field not found')
+        vt = vfield['type'].get('desugaredQualType') or vfield['type'].get('qualType')
+        alts = split_targs(vt)
+        ctx.check(len(alts) == 7, R, 'variant|7-alternatives', vfield, '%d alternatives' % len(alts), 'the variant has %d alternatives; serialize/copy/compare are written for 7' % len(alts))
+        want_acc = {1: 'as_bool', 2: 'as_int', 3: 'as_float', 4: 'as_string', 5: 'as_list', 6: 'as_dict'}
+        for k in range(7):
+            c = cases.get(k)
+            ctx.check(c is not None, R, 'serialize|case-%d' % k, sw[0], 'case %d present' % k, 'serialize has no case for variant index %d (%s)' % (k, ALT_NAMES[k]))
+            if c is not None and k in want_acc:
+                nxt = cases.get(k + 1)
+                accs = {call_name(y) for y in walk(c) if y.get('kind') == 'CXXMemberCallExpr' and (call_name(y) or '').startswith('as_') and is_this(member_call_object(y))
+                        and (nxt is None or not any(a is nxt for a in ancestors(y)))}
+                ctx.check(accs == {want_acc[k]}, R, 'serialize|case-%d-accessor' % k, c, 'case %d renders %s()' % (k, want_acc[k]), 'case %d (%s) renders through %s' % (k, ALT_NAMES[k], sorted(accs)))
+        asg = [f for f in u.func('phosg::JSON::operator=') if 'const phosg::JSON &' in (qtype(params_of(f)[0]) or '') or 'const JSON &' in (qtype(params_of(f)[0]) or '')]
+        ctx.require(len(asg) == 1, 'JSON::operator=(const JSON&) not found')
+        A = asg[0]
+        ctx.fn('phosg::JSON::operator=(const JSON&)')
+        asw = [x for x in walk(body_of(A)) if x.get('kind') == 'SwitchStmt']
+        ctx.require(len(asw) == 1, 'operator=: switch not found')
+        acases = {}
+        for c in walk(asw[0]):
+            if c.get('kind') == 'CaseStmt':
+                acases[int_value(kids(c)[0])] = c
+        order = sorted(acases)
+        for k in range(7):
+            c = acases.get(k)
+            ctx.check(c is not None, R, 'operator=|case-%d' % k, asw[0], 'case %d present' % k, 'copy assignment has no case for variant index %d (%s)' % (k, ALT_NAMES[k]))
+            if c is None:
+                continue
+            nxt = acases.get(k + 1)
+            gets = []
+            for y in walk(c):
+                if y.get('kind') == 'CallExpr' and call_name(y) == 'get' and (nxt is None or not any(a is nxt for a in ancestors(y))):
+                    gets.append(y)
+            # get<k>: the result type must be alternative k
+            badg = [y for y in gets if norm_alt(dtype(y)) != norm_alt(alts[k] if k < len(alts) else '')]
+            ctx.check(not badg, R, 'operator=|case-%d-index' % k, c, 'case %d reads/writes alternative %d only' % (k, k), 'case %d accesses a different alternative: %s has type %s' % (k, src_text(badg[0], 50) if badg else '', dtype(badg[0]) if badg else ''))
+        cmp_ = [f for f in u.func('phosg::JSON::operator<=>') if 'JSON &' in (qtype(params_of(f)[0]) or '')]
+        if cmp_:
+            csw = [x for x in walk(body_of(cmp_[0])) if x.get('kind') == 'SwitchStmt']
+            labels = {int_value(kids(c)[0]) for x in csw for c in walk(x) if c.get('kind') == 'CaseStmt'}
+            ctx.check(labels == set(range(7)), R, 'operator<=>|cases', cmp_[0], 'cases 0..6', 'comparison handles indices %s' % sorted(labels))
+        # as_X returns the alternative named X
+        idx = {n: i for i, n in enumerate(ALT_NAMES)}
+        for nm in ('as_bool', 'as_string', 'as_list', 'as_dict'):
+            for f in u.func('phosg::JSON::' + nm):
+                gets = [y for y in walk(body_of(f)) if y.get('kind') == 'CallExpr' and call_name(y) == 'get']
+                k = idx[nm[3:]]
+                ok = len(gets) >= 1 and all(norm_alt(dtype(y)) == norm_alt(alts[k]) for y in gets)
+                const = ' const' if (f.get('type', {}).get('qualType') or '').rstrip().endswith('const') else ''
+                ctx.check(ok, R, '%s%s|alternative' % (nm, const), f, '%s returns alternative %d' % (nm, k), '%s does not return the %s alternative' % (nm, ALT_NAMES[k]))
 
     # ---- R5 deep copy
-    R = 'C04-R5'
-    for k, ins in ((5, ('emplace_back', 'push_back')), (6, ('emplace', 'insert', 'try_emplace'))):
-        c = acases.get(k)
-        if c is None:
-            continue
-        nxt = acases.get(k + 1)
-        nodes = [y for y in walk(c) if nxt is None or not any(a is nxt for a in ancestors(y))]
-        loops = [y for y in nodes if y.get('kind') == 'CXXForRangeStmt']
-        fresh = None
-        for y in nodes:
-            if y.get('kind') == 'CXXOperatorCallExpr' and call_name(y) == 'operator=' and canon(y['inner'][1]) == 'this.value':
-                tmp = [z for z in walk(y['inner'][2]) if z.get('kind') in ('CXXTemporaryObjectExpr', 'CXXConstructExpr', 'CXXScalarValueInitExpr', 'CXXFunctionalCastExpr')]
-                empty = any(z.get('kind') in ('CXXTemporaryObjectExpr', 'CXXConstructExpr') and norm_alt(dtype(z)) == norm_alt(alts[k]) and not [a for a in kids(z) if a.get('kind') != 'CXXDefaultArgExpr'] for z in tmp)
-                if empty:
-                    fresh = y
-        ok_fresh = False
-        if loops:
-            pre = preceding_statements(loops[0])
-            if fresh is not None:
-                cs = containing_statement(fresh)
-                # dominating: the assignment is itself a straight-line predecessor of the copy loop (not nested under a condition)
-                ok_fresh = any(cs is s for s in pre) and strip(cs) is fresh
-            if not ok_fresh:
-                # alternatively the existing container is emptied unconditionally
-                for s in pre:
-                    s0 = strip(s)
-                    if s0.get('kind') == 'CXXMemberCallExpr' and call_name(s0) == 'clear':
-                        ok_fresh = True
-        ctx.check(bool(ok_fresh), R, 'operator=|case-%d-fresh-container' % k, c, 'this->value is assigned a new empty %s before the children are copied' % ALT_NAMES[k],
-                  'the target\'s existing %s is not replaced by an empty one before the children are copied: `a = b` onto an existing %s appends instead of replacing' % (ALT_NAMES[k], ALT_NAMES[k]))
-        inserts = [y for y in nodes if y.get('kind') == 'CXXMemberCallExpr' and call_name(y) in ins]
-        good = bool(inserts) and bool(loops)
-        for y in inserts:
-            news = [z for z in walk(y) if z.get('kind') == 'CXXNewExpr']
-            deep = False
-            for z in news:
-                ce = [w for w in walk(z) if w.get('kind') == 'CXXConstructExpr' and norm_alt(dtype(w)) == 'phosg::JSON']
-                if ce and any(w.get('kind') in ('UnaryOperator', 'CXXOperatorCallExpr') for w in walk(ce[0])):
-                    deep = True
-            if not deep:
-                good = False
-        ctx.check(good, R, 'operator=|case-%d-deep' % k, c, 'every child is inserted as new JSON(*child)', 'children of the %s are not copied as `new JSON(*child)`: the copy aliases or drops them' % ALT_NAMES[k])
-    cctor = [f for f in u.func('phosg::JSON::JSON') if len(params_of(f)) == 1 and (qtype(params_of(f)[0]) or '').replace('phosg::', '') == 'const JSON &']
-    ctx.require(len(cctor) == 1, 'copy constructor not found')
-    calls = [y for y in walk(body_of(cctor[0])) if y.get('kind') == 'CXXMemberCallExpr' and call_name(y) == 'operator=']
-    calls += [y for y in walk(body_of(cctor[0])) if y.get('kind') == 'CXXOperatorCallExpr' and call_name(y) == 'operator=']
-    ok = len(calls) == 1 and (callee_decl(calls[0], u) or {}).get('mangledName') == A.get('mangledName')
-    ctx.check(ok, R, 'copy-ctor|delegates', cctor[0], 'copy constructor delegates to the deep-copying assignment', 'copy constructor does not delegate to operator=(const JSON&)')
-    check_compare(ctx, u, alts)
-    # strings and keys are arbitrary byte strings: nothing on the serialize / compare path may look at
-    # them through a NUL-terminated view
-    CSTR = ('strcmp', 'strncmp', 'strlen', 'strcoll', 'strcasecmp', 'strncasecmp', 'strcpy', 'strdup', 'strstr', 'strchr', 'strrchr', 'strspn', 'strcspn', 'strtok', 'strnlen')
-    esc_f = [f for f in u.functions if f.get('name') == 'escape_string' and body_of(f) is not None]
-    n_views = 0
-    for f in [ser] + esc_f:
-        for c in walk_deep(body_of(f), u):
-            if c.get('kind') == 'CallExpr' and call_name(c) in CSTR:
-                views = [x for a in call_args(c) for x in walk(a) if x.get('kind') == 'CXXMemberCallExpr' and call_name(x) in ('c_str', 'data') and 'basic_string' in (dtype(member_call_object(x)) or '')]
-                if views:
-                    n_views += 1
-                    ctx.bad('C04-R6', '%s|cstring-view|%s@%s' % (f.get('name'), call_name(c), c.get('_line')), c,
-                            '%s() is applied to %s: a key or string with an embedded NUL byte is handled by its prefix only (ordering / output differ from the std::string the value holds)' % (call_name(c), src_text(views[0], 50)))
-    if not n_views:
-        ctx.ok('C04-R6', 'serialize|no-cstring-view', ser, 'no NUL-terminated view of a key or string on the serialize path', nontrivial=False)
+    with ctx.section('C04-R5', 'C04'):
+        R = 'C04-R5'
+        for k, ins in ((5, ('emplace_back', 'push_back')), (6, ('emplace', 'insert', 'try_emplace'))):
+            c = acases.get(k)
+            if c is None:
+                continue
+            nxt = acases.get(k + 1)
+            nodes = [y for y in walk(c) if nxt is None or not any(a is nxt for a in ancestors(y))]
+            loops = [y for y in nodes if y.get('kind') == 'CXXForRangeStmt']
+            fresh = None
+            for y in nodes:
+                if y.get('kind') == 'CXXOperatorCallExpr' and call_name(y) == 'operator=' and canon(y['inner'][1]) == 'this.value':
+                    tmp = [z for z in walk(y['inner'][2]) if z.get('kind') in ('CXXTemporaryObjectExpr', 'CXXConstructExpr', 'CXXScalarValueInitExpr', 'CXXFunctionalCastExpr')]
+                    empty = any(z.get('kind') in ('CXXTemporaryObjectExpr', 'CXXConstructExpr') and norm_alt(dtype(z)) == norm_alt(alts[k]) and not [a for a in kids(z) if a.get('kind') != 'CXXDefaultArgExpr'] for z in tmp)
+                    if empty:
+                        fresh = y
+            ok_fresh = False
+            if loops:
+                pre = preceding_statements(loops[0])
+                if fresh is not None:
+                    cs = containing_statement(fresh)
+                    # dominating: the assignment is itself a straight-line predecessor of the copy loop (not nested under a condition)
+                    ok_fresh = any(cs is s for s in pre) and strip(cs) is fresh
+                if not ok_fresh:
+                    # alternatively the existing container is emptied unconditionally
+                    for s in pre:
+                        s0 = strip(s)
+                        if s0.get('kind') == 'CXXMemberCallExpr' and call_name(s0) == 'clear':
+                            ok_fresh = True
+            ctx.check(bool(ok_fresh), R, 'operator=|case-%d-fresh-container' % k, c, 'this->value is assigned a new empty %s before the children are copied' % ALT_NAMES[k],
+                      'the target\'s existing %s is not replaced by an empty one before the children are copied: `a = b` onto an existing %s appends instead of replacing' % (ALT_NAMES[k], ALT_NAMES[k]))
+            inserts = [y for y in nodes if y.get('kind') == 'CXXMemberCallExpr' and call_name(y) in ins]
+            good = bool(inserts) and bool(loops)
+            for y in inserts:
+                news = [z for z in walk(y) if z.get('kind') == 'CXXNewExpr']
+                deep = False
+                for z in news:
+                    ce = [w for w in walk(z) if w.get('kind') == 'CXXConstructExpr' and norm_alt(dtype(w)) == 'phosg::JSON']
+                    if ce and any(w.get('kind') in ('UnaryOperator', 'CXXOperatorCallExpr') for w in walk(ce[0])):
+                        deep = True
+                if not deep:
+                    good = False
+            ctx.check(good, R, 'operator=|case-%d-deep' % k, c, 'every child is inserted as new JSON(*child)', 'children of the %s are not copied as `new JSON(*child)`: the copy aliases or drops them' % ALT_NAMES[k])
+        cctor = [f for f in u.func('phosg::JSON::JSON') if len(params_of(f)) == 1 and (qtype(params_of(f)[0]) or '').replace('phosg::', '') == 'const JSON &']
+        ctx.require(len(cctor) == 1, 'copy constructor not found')
+        calls = [y for y in walk(body_of(cctor[0])) if y.get('kind') == 'CXXMemberCallExpr' and call_name(y) == 'operator=']
+        calls += [y for y in walk(body_of(cctor[0])) if y.get('kind') == 'CXXOperatorCallExpr' and call_name(y) == 'operator=']
+        ok = len(calls) == 1 and (callee_decl(calls[0], u) or {}).get('mangledName') == A.get('mangledName')
+        ctx.check(ok, R, 'copy-ctor|delegates', cctor[0], 'copy constructor delegates to the deep-copying assignment', 'copy constructor does not delegate to operator=(const JSON&)')
+        check_compare(ctx, u, alts)
+        # strings and keys are arbitrary byte strings: nothing on the serialize / compare path may look at
+        # them through a NUL-terminated view
+        CSTR = ('strcmp', 'strncmp', 'strlen', 'strcoll', 'strcasecmp', 'strncasecmp', 'strcpy', 'strdup', 'strstr', 'strchr', 'strrchr', 'strspn', 'strcspn', 'strtok', 'strnlen')
+        esc_f = [f for f in u.functions if f.get('name') == 'escape_string' and body_of(f) is not None]
+        n_views = 0
+        for f in [ser] + esc_f:
+            for c in walk_deep(body_of(f), u):
+                if c.get('kind') == 'CallExpr' and call_name(c) in CSTR:
+                    views = [x for a in call_args(c) for x in walk(a) if x.get('kind') == 'CXXMemberCallExpr' and call_name(x) in ('c_str', 'data') and 'basic_string' in (dtype(member_call_object(x)) or '')]
+                    if views:
+                        n_views += 1
+                        ctx.bad('C04-R6', '%s|cstring-view|%s@%s' % (f.get('name'), call_name(c), c.get('_line')), c,
+                                '%s() is applied to %s: a key or string with an embedded NUL byte is handled by its prefix only (ordering / output differ from the std::string the value holds)' % (call_name(c), src_text(views[0], 50)))
+        if not n_views:
+            ctx.ok('C04-R6', 'serialize|no-cstring-view', ser, 'no NUL-terminated view of a key or string on the serialize path', nontrivial=False)
     ctx.note('R1 is exhaustive over (mode, byte): 3 x 256 cases evaluated on the extracted tables, no code executed. Not decided: value equality for every tree, %g rounding, independent JSON implementations.')
 
 
